@@ -17,6 +17,7 @@ mod c07;
 mod sock;
 mod c08;
 mod c06;
+mod c03;
 
 use std::io::{BufRead, Write};
 
@@ -66,6 +67,7 @@ fn lookup(id: &str) -> Option<(&'static str, Gen, Exec)> {
         "C07" => Some(("C07", c07::generate, c07::exec)),
         "C08" => Some(("C08", c08::generate, c08::exec)),
         "C06" => Some(("C06", c06::generate, c06::exec)),
+        "C03" => Some(("C03", c03::generate, c03::exec)),
         _ => None,
     }
 }
